@@ -286,6 +286,19 @@ def run_check(prop, tier, seed, replay=None):
                 path = write_replay(prop, seed, k, {"property": prop, "kind": "oracle-failure", "harness": r["bin"], "what": o["what"],
                                                     "class": o["class"], "cases": o["replay_case"], "seed": seed})
                 violations.append(path)
+    # a static finder (C14): when the proof over the regenerated table breaks, name the offending sites - they are the
+    # concrete failing input of a "for every site" property
+    if not violations and tie_breaks and spec.get("static_finder") and not replay:
+        rc, out = sh(spec["static_finder"], timeout=600)
+        try:
+            rep = json.loads(out[out.index("{"):])
+            for off in rep.get("offending", [])[:5]:
+                k += 1
+                path = write_replay(prop, seed, k, {"property": prop, "kind": "offending-site", "found_by": "static finder after tie break",
+                                                    "site": off, "broken": [n for n, _ in tie_breaks[:10]], "seed": seed, "cases": []})
+                violations.append(path)
+        except Exception:  # noqa
+            pass
     searched = 0
     if not violations and tie_breaks and hb_ok and mb_ok and not replay:
         # a tie broke: search the implementation for a concrete input on which the property itself now fails
